@@ -59,14 +59,14 @@ def mc(c, module, name, consts, invariants, properties=(), timeout=600, workers=
 
 
 def expect_counterexample(c, module, name, consts, invariant, timeout=300, workers=None, spec="Spec"):
-    """Model-check the design module with the switch that models the pinned tree's known
-    deviation: TLC must find a counterexample (this shows the specification is able to express
+    """Model-check the design module with the switch that models the code before a defect was
+    repaired: TLC must find a counterexample (this shows the specification is able to express
     the defect; it is not a verdict).  Returns the TLCResult."""
     d = vlib.stage_specs(["sm1"])
     cfg = "cx_%s.cfg" % name
     write_cfg(os.path.join(d, cfg), spec, consts, [invariant])
     res = vlib.run_tlc(d, module, cfg, timeout=timeout, workers=workers or NW)
-    c.cov["tlc_runs"].append({"config": "%s:%s (as-is switch, counterexample expected)" % (module, name),
+    c.cov["tlc_runs"].append({"config": "%s:%s (pre-fix switch, counterexample expected)" % (module, name),
                               "violated": res.violation, "states_generated": res.generated,
                               "distinct_states": res.distinct, "wall_s": round(res.wall, 1)})
     if res.timeout or (not res.violation and not res.ok):
